@@ -89,6 +89,8 @@ def gen_model(rng):
         elif r < 0.4:
             filters = [E.isnull(ph(rng, "status"), neg=rng.random() < 0.5)]
         measures.append({"name": f"m{i}_{agg}", "agg": agg, "sql": sql, "star": star, "filters": filters})
+        if agg in ("sum", "avg", "min", "max") and sql is not None and not filters and rng.random() < 0.25:
+            measures[-1]["inline"] = True      # declared only as SQL text `AGG(expr)`: the layer parses the aggregation out of it
     m = {"name": name, "table": name + "_t", "sql": None, "pk": ["k1", "k2"] if composite else ["id"], "dims": dims, "measures": measures}
     if sqlbacked:
         m["sql"] = rng.choice([f"SELECT * FROM {name}_t", f"SELECT * FROM {name}_t WHERE qty IS NOT NULL"])
@@ -174,6 +176,9 @@ def build_model(m, preaggs=None):
     mets = []
     for x in m["measures"]:
         kw = {"name": x["name"], "agg": x["agg"]}
+        if x.get("inline"):
+            mets.append(Metric(name=x["name"], sql=f"{x['agg'].upper()}({E.render(x['sql'])})"))
+            continue
         if x.get("star"):
             kw["sql"] = "*"
         elif x.get("sql") is not None:
